@@ -73,6 +73,10 @@ def build_items_rs(unit, work):
             ex = X.extract_region(os.path.join(vf.REPO, a["file"]), a["in"], a.get("impl"), a["from"], a["to"], int(a.get("from_nth", 0)), int(a.get("to_nth", 0)), a.get("to_exclusive") == "yes")
             w = wrappers[a["name"]]
             free.append(w["header"] + "\n" + ex["text"] + "\n" + w["footer"])
+    # regions that only the replay build needs (unverified neighbouring statements of a verified region, original text)
+    for rr in meta.get("replay_regions", []):
+        ex = X.extract_region(os.path.join(vf.REPO, rr["file"]), rr["in"], rr.get("impl"), rr["from"], rr["to"], int(rr.get("from_nth", 0)), int(rr.get("to_nth", 0)), rr.get("to_exclusive") == "yes")
+        free.append(rr["header"] + "\n" + ex["text"] + "\n" + rr["footer"])
     out = ["// generated on every run from /repo's working tree: ORIGINAL item text (only serde derives/attributes removed from types)"]
     out += types
     for im in order:
